@@ -112,6 +112,13 @@ struct ItemSpec {
     /// (so a renamed local keeps its invariants and a deleted mechanism loses them)
     #[serde(default)]
     alias: BTreeMap<String, String>,
+    /// N2: element types for the Vec that collects joined results: [[regex on the joined expression, type]]
+    #[serde(default)]
+    n2_types: Vec<(String, String)>,
+    /// N15: type ascriptions for `let` bindings whose type rustc infers from later uses (contracts
+    /// mention them earlier): variable name -> type
+    #[serde(default)]
+    let_types: BTreeMap<String, String>,
     /// N4: names for tuple-pattern parameters, by parameter index ("2" -> "t1")
     #[serde(default)]
     arg_names: BTreeMap<String, String>,
@@ -351,6 +358,8 @@ impl<'ast, 't> Visit<'ast> for LoopCollector<'t> {
 // ---------------------------------------------------------------- normalisation rules
 
 struct Normaliser<'t> {
+    n2_types: Vec<(Regex, String)>,
+    let_types: BTreeMap<String, String>,
     n9: bool,
     n6: Option<String>,
     reg_index: Vec<String>,
@@ -583,11 +592,12 @@ impl<'t> Normaliser<'t> {
         let is_async = cl.asyncness.is_some();
         // async closure body evaluates to the Result; a plain closure returns a future
         let item = if is_async { format!("{}", body) } else { format!("({}).await", body) };
-        let new = format!(
-            "{{ let mut __pv_join = Vec::new(); for {} in {} {{ let __pv_r = {}; __pv_join.push(__pv_r?); }} __pv_join }}",
-            pat, iter, item
-        );
         let (s, e) = br(outer.span());
+        let ty = self.n2_types.iter().find(|(r, _)| r.is_match(&self.text[s..e])).map(|(_, t)| format!(": Vec<{}>", t)).unwrap_or_default();
+        let new = format!(
+            "{{ let mut __pv_join{} = Vec::new(); for {} in {} {{ let __pv_r = {}; __pv_join.push(__pv_r?); }} __pv_join }}",
+            ty, pat, iter, item
+        );
         let _ = awaited_try;
         self.push(s, e, new, "N2");
         true
@@ -639,6 +649,58 @@ impl<'t> Normaliser<'t> {
     }
 }
 
+impl<'t> Normaliser<'t> {
+    /// N14: in a `for` body, `if C { T; continue; } REST` → `if C { T } else { REST }`
+    /// (Verus' for-loops do not support `continue`)
+    fn try_n14(&mut self, body: &syn::Block) -> bool {
+        if !(self.on)("N14") {
+            return false;
+        }
+        for (k, st) in body.stmts.iter().enumerate() {
+            let syn::Stmt::Expr(syn::Expr::If(ei), _) = st else { continue };
+            if ei.else_branch.is_some() {
+                continue;
+            }
+            let Some(last) = ei.then_branch.stmts.last() else { continue };
+            let is_cont = matches!(last, syn::Stmt::Expr(syn::Expr::Continue(c), _) if c.label.is_none());
+            if !is_cont {
+                continue;
+            }
+            // remove `continue;`
+            let (cs, ce) = br(last.span());
+            self.push(cs, ce, String::new(), "N14");
+            // wrap the rest of the body into else { .. }
+            let (_, ie) = br(ei.span());
+            let (_, be) = br(body.span());
+            if k + 1 < body.stmts.len() {
+                self.push(ie, ie, " else {".to_string(), "N14");
+                self.push(be - 1, be - 1, "} ".to_string(), "N14");
+            }
+            return true;
+        }
+        // tail position: the last statement's branches also end the loop body
+        if let Some(syn::Stmt::Expr(syn::Expr::If(ei), _)) = body.stmts.last() {
+            if self.try_n14(&ei.then_branch) {
+                return true;
+            }
+            let mut cur = ei;
+            while let Some((_, eb)) = &cur.else_branch {
+                match &**eb {
+                    syn::Expr::Block(b) => return self.try_n14(&b.block),
+                    syn::Expr::If(e2) => {
+                        if self.try_n14(&e2.then_branch) {
+                            return true;
+                        }
+                        cur = e2;
+                    }
+                    _ => break,
+                }
+            }
+        }
+        false
+    }
+}
+
 impl<'ast, 't> Visit<'ast> for Normaliser<'t> {
     fn visit_expr_macro(&mut self, m: &'ast syn::ExprMacro) {
         // N12: `vec![E; N]` → `pv_vec_repeat(E, N)` (vstd cannot specify Clone of tuples, so the
@@ -668,7 +730,9 @@ impl<'ast, 't> Visit<'ast> for Normaliser<'t> {
     }
     fn visit_expr_for_loop(&mut self, e: &'ast syn::ExprForLoop) {
         let done = self.try_n1(e) || self.try_n10(e) || self.try_n7(e);
-        let _ = done;
+        if !done {
+            self.try_n14(&e.body);
+        }
         syn::visit::visit_expr_for_loop(self, e);
     }
     fn visit_expr_if(&mut self, e: &'ast syn::ExprIf) {
@@ -735,6 +799,15 @@ impl<'ast, 't> Visit<'ast> for Normaliser<'t> {
         syn::visit::visit_expr_field(self, f);
     }
     fn visit_local(&mut self, l: &'ast syn::Local) {
+        // N15: type ascription
+        if let syn::Pat::Ident(pi) = &l.pat {
+            if let Some(ty) = self.let_types.get(&pi.ident.to_string()) {
+                if (self.on)("N15") {
+                    let (_, e) = br(pi.span());
+                    self.push(e, e, format!(": {}", ty), "N15");
+                }
+            }
+        }
         // N6: `let &Context { a, b, .. } = ctx;`
         if let (Some(cv), Some(init)) = (&self.n6, &l.init) {
             if let (syn::Pat::Reference(rp), syn::Expr::Path(ip)) = (&l.pat, &*init.expr) {
@@ -843,11 +916,12 @@ impl<'t> Normaliser<'t> {
         let body = self.t(cl.body.span()).to_string();
         let iter = self.t(map.receiver.span()).to_string();
         let item = if cl.asyncness.is_some() { body } else { format!("({}).await", body) };
-        let new = format!(
-            "{{ let mut __pv_join = Vec::new(); for {} in {} {{ let __pv_r = {}; __pv_join.push(__pv_r?); }} __pv_join }}",
-            pat, iter, item
-        );
         let (s, e) = br(t.span());
+        let ty = self.n2_types.iter().find(|(r, _)| r.is_match(&self.text[s..e])).map(|(_, t)| format!(": Vec<{}>", t)).unwrap_or_default();
+        let new = format!(
+            "{{ let mut __pv_join{} = Vec::new(); for {} in {} {{ let __pv_r = {}; __pv_join.push(__pv_r?); }} __pv_join }}",
+            ty, pat, iter, item
+        );
         self.push(s, e, new, "N2");
         true
     }
@@ -1013,7 +1087,7 @@ fn main() {
             };
             for fp in &fns {
                 sig_edits(&text, fp, &on, &it.arg_names, &mut edits);
-                let mut nz = Normaliser { n9: it.n9, n6: it.n6.clone(), reg_index: it.reg_index.clone(), bool_and: it.bool_and.iter().filter_map(|r| Regex::new(r).ok()).collect(), n3_all: it.n3.as_deref() == Some("all"), n3_match: it.n3_match.iter().filter_map(|r| Regex::new(r).ok()).collect(), text: &text, edits: vec![], on: &on, eager_futs: vec![] };
+                let mut nz = Normaliser { n2_types: it.n2_types.iter().filter_map(|(r, t)| Regex::new(r).ok().map(|r| (r, t.clone()))).collect(), let_types: it.let_types.clone(), n9: it.n9, n6: it.n6.clone(), reg_index: it.reg_index.clone(), bool_and: it.bool_and.iter().filter_map(|r| Regex::new(r).ok()).collect(), n3_all: it.n3.as_deref() == Some("all"), n3_match: it.n3_match.iter().filter_map(|r| Regex::new(r).ok()).collect(), text: &text, edits: vec![], on: &on, eager_futs: vec![] };
                 nz.visit_block(fp.block);
                 edits.extend(nz.edits);
                 let _ = fp.whole;
